@@ -286,7 +286,7 @@ def splice_unit(u, scratch, probes, wdir):
             if "nth" in spec:
                 a, _, b2 = spec["nth"].partition("/")
                 nth = (int(a), int(b2))
-            body = vsplice.extract_statement(text, spec["from"], spec["start"], nth, int(spec.get("stmts", "1")))
+            body = vsplice.extract_statement(text, spec["from"], spec["start"], nth, int(spec.get("stmts", "1")), int(spec.get("skip", "0")))
             extracted.append("/* extracted verbatim from %s(): statement starting at %r */\n%s %s(%s)\n{\n%s\n%s\n%s\n}\n"
                              % (spec["from"], spec["start"].replace("/*", "").replace("*/", "").strip(), spec.get("returns_type", "void"), b.args[0], spec.get("params", "void"),
                                 spec.get("locals", ""), body, spec.get("return", "")))
